@@ -23,7 +23,12 @@ ENGINES = ["lean-model", "pyextract", "kopfsim"]
 TIE = "T (HandlerState booleans, with_outcome flags, lifecycles re-extracted and re-proved) + S: step refinement — each real handling pass (closed-loop simulation incl. restarts/kills) replayed through the Lean `cycle`"
 LEVEL_TEXT = ("Lean theorems for all stored-record maps, outcome scripts, lifecycles (one_by_one/all_at_once/asap) and clocks. "
               "Single pass, unguarded: no_rerun, retry_kwarg, invoked_selected_awake, closed_iff_all_finished, closed_purges(+skip, "
-              "+subrefs), final_outcome_recorded, due_invoked_all_at_once (the converse for all-at-once only). Across passes "
+              "+subrefs), final_outcome_recorded, due_invoked_all_at_once (the converse for all-at-once only). 'Exactly when every "
+              "SELECTED handler has finished' also over objects that carry UNFINISHED records, same purpose, of handlers that are "
+              "no longer selected (field reverted / label flipped while retrying): closed_ignores_unselected_records (two objects "
+              "that agree on the selected handlers' records get the same invocations and the same closing decision, whatever else "
+              "they carry; no NoExtras-like hypothesis), closed_despite_unselected_unfinished; the seeded variant `done := not "
+              "counts.running` (seed C03d) is refuted on the seed's own history: counts_running_variant_never_closes(_witness). Across passes "
               "(any placement of restarts and foreign events that keep the cause; selection/limits/lifecycle may change per pass): "
               "finished_persists, finished_never_invoked(_varying), once_per_cycle(_varying) — GUARDED by `NoExtras` (no cause "
               "supersedes the open cycle in between); the guard is needed: superseding_cause_reruns_witness; the environments "
@@ -46,8 +51,9 @@ LEVEL_TEXT = ("Lean theorems for all stored-record maps, outcome scripts, lifecy
               "clause. Ties: T (HandlerState booleans, outcome flags, lifecycles), S per pass (invocations, every top-level "
               "record, purged children both ways, closing decision, delays), S per sub-pass, S per whole pass with its sub-passes.")
 THEOREMS = [("Kopf.Props.C02", "Kopf.C02." + n) for n in [
-    "no_rerun", "retry_kwarg", "invoked_selected_awake", "closed_iff_all_finished", "closed_purges",
-    "closed_purges_skip", "closed_purges_subrefs", "finished_persists", "final_outcome_recorded", "noExtras_preserved",
+    "no_rerun", "retry_kwarg", "invoked_selected_awake", "closed_iff_all_finished", "closed_ignores_unselected_records",
+    "closed_despite_unselected_unfinished", "counts_running_variant_never_closes", "counts_running_variant_never_closes_witness",
+    "closed_purges", "closed_purges_skip", "closed_purges_subrefs", "finished_persists", "final_outcome_recorded", "noExtras_preserved",
     "finished_never_invoked", "once_per_cycle", "finished_never_invoked_varying", "once_per_cycle_varying", "stale_view_reruns",
     "due_invoked_all_at_once", "sub_no_rerun", "sub_retry_kwarg", "parent_final_iff_subs_finished", "sub_records_covered", "sub_writes_only_known",
     "sub_records_purged_on_close", "superseding_cause_reruns_witness",
@@ -62,7 +68,12 @@ RULE = ("seeded scenarios: 1-4 change handlers (create/update/delete/resume, opt
         "(create/update/delete/resume/field) with 1-3 children registered by @kopf.subhandler (implicit run or argument-less "
         "kopf.execute()), kopf.register, or kopf.execute(fns=…), scripts for children and parents, objects existing before the "
         "start or created later, deletion requested while the children of an update/field/resume parent are retrying, restarts "
-        "in between (histograms sub_parent_kind*, sub_registration, sub_pass_shape, sub_selection); one case = one handling pass; distinct & non-trivial = "
+        "in between (histograms sub_parent_kind*, sub_registration, sub_pass_shape, sub_selection); a de-selection family (gen_deselect): "
+        "2-3 update handlers with field= filters on different fields (the victim sometimes label-filtered or an @on.field handler, "
+        "sometimes an unfiltered sibling, a delete/resume handler), the victim retrying/sleeping when the next change reverts its "
+        "field and changes another one (another handler of the SAME cause kind is selected), stop/kill + restart before, around "
+        "(downtime holding the change) or after it, later changes of the other field, of the victim's field (selected again), of "
+        "both (histogram unselected_unfinished_same_purpose); one case = one handling pass; distinct & non-trivial = "
         "distinct abstracted (reason, stored-record shape, outcomes, closing) tuples with at least one handler selected")
 TRUSTED = ["harness/sim (virtual-time loop, fake API server, scripted handlers, attribute-level observation of kopf)",
            "abstraction of a pass: records decoded with kopf's own progress storage (C16's subject)",
@@ -78,9 +89,14 @@ ASSUMPTIONS = ["randomized/shuffled lifecycles are not modelled (they draw from 
                "the selected ones — sub-handlers without criteria of their own); the gate in the code (`ChangingRegistry.iter_handlers`: "
                "reason/initial/deleted/field_needs_change) is modelled in C15 (`Kopf.C15.gate`) and C05 (`Kopf.C05.gate`); here the input is "
                "compared with the code per parent invocation and required by the oracle, for every cause incl. deletion",
-               "sub-handlers with criteria of their own (labels/when/field on @kopf.subhandler) and nested sub-handlers are not generated"]
+               "sub-handlers with criteria of their own (labels/when/field on @kopf.subhandler) and nested sub-handlers are not generated",
+               "WHICH handlers a labels= / field= filter selects for a cause is C15's subject: oracle and model take the selection the "
+               "implementation computed for the pass (`get_handlers(cause)`) as given; what is judged here is what the pass does with "
+               "it — in particular that records of handlers OUTSIDE the selection (finished or not, same purpose or not) neither keep "
+               "the cycle open nor survive its closing"]
 
 OWN_PREFIX = "kopf.zalando.org/"
+OWN_FINALIZER = "kopf.zalando.org/KopfFinalizerMarker"
 KINDS = ["create", "update", "delete", "resume"]
 
 
@@ -314,6 +330,118 @@ def gen_foreign_burst(rng: Any, i: int) -> dict:
             "echo_delay": {"default": rng.choice([0.0, 0.0, 0.25, 0.5, 1.0])}, "end": t + 30.0}
 
 
+DESELECT_FIELDS = ["x", "y", "z"]
+
+
+def gen_deselect(rng: Any, i: int) -> dict:
+    """The SELECTED set changes inside an open cycle while the PURPOSE stays the same (seed C03d's class): update
+    handlers with `field=` filters on different fields (`@on.update(field='spec.x')` …; one of them sometimes a label
+    filter or an `@on.field` handler instead, sometimes an unfiltered sibling). The victim handler fails temporarily
+    (or with an arbitrary error) and is retrying / sleeping — its unfinished record, purpose=update, is on the object —
+    when the next change REVERTS its field (or flips its label) and changes another field: the victim is no longer
+    selected, another handler of the SAME cause kind is. That handler finishes (at once, or after retries of its own):
+    the cycle must close there — every record purged, the victim's included, last-handled written. Then: the other
+    field changes again, the victim's field changes again (selected again: a fresh series), both, or nothing; a stop /
+    kill + restart before, around (downtime holding the change) or after the de-selecting change; 2 or 3 handlers."""
+    n = rng.choice([2, 2, 3, 3])
+    fields = DESELECT_FIELDS[:n]
+    victim_how = rng.choice(["field", "field", "field", "label", "on.field"])
+    long_d = rng.choice([4.0, 8.0, 64.0, 3600.0])
+    handlers: list[dict] = []
+    for k, f in enumerate(fields):
+        opts: dict[str, Any] = {"field": f"spec.{f}"}
+        kind = "update"
+        if k == 0:
+            if victim_how == "label":
+                opts = {"labels": {"l": "1"}}
+            elif victim_how == "on.field":
+                kind = "field"
+            script: list = [rng.choice([["temp", long_d], ["temp", long_d], "arb"]) for _ in range(rng.choice([1, 1, 2, 3]))]
+            if rng.random() < 0.3:
+                opts["backoff"] = rng.choice([8.0, 16.0])
+        else:
+            script = [rng.choice([["temp", 0.5], ["temp", 1.0], ["temp", 2.0], "perm", "arb"]) for _ in range(rng.choice([0, 0, 1, 1, 2]))]
+            if rng.random() < 0.2:
+                opts["retries"] = rng.choice([1, 2])
+            if rng.random() < 0.2:
+                opts["backoff"] = rng.choice([0.5, 1.0])
+        handlers.append({"kind": kind, "id": f"h{f}", "opts": opts, "script": script, "default": "ok"})
+    if rng.random() < 0.25:      # an unfiltered sibling: selected for every update
+        handlers.append({"kind": "update", "id": "u", "opts": {}, "default": "ok",
+                         "script": [rng.choice([["temp", 1.0], ["temp", 2.0]]) for _ in range(rng.choice([0, 1, 2]))]})
+    if rng.random() < 0.2:
+        handlers.append({"kind": "delete", "id": "d", "opts": {"optional": rng.random() < 0.3}, "script": [], "default": "ok"})
+    if rng.random() < 0.15:
+        handlers.append({"kind": "resume", "id": "r", "opts": {}, "script": [rng.choice(["ok", ["temp", 1.0]])], "default": "ok"})
+    rng.shuffle(handlers)
+    spec0 = {f: 0 for f in fields}
+    body0: dict[str, Any] = {"spec": dict(spec0), "metadata": {"labels": {"l": "1"}}}
+    timeline: list[list] = []
+    sc: dict[str, Any] = {"seed": i, "lifecycle": rng.choice(["asap", "one_by_one", "all_at_once"]), "handlers": handlers,
+                          "settings": {"execution.default_backoff": rng.choice([4.0, 8.0])}}
+    if rng.random() < 0.5:
+        body0["metadata"]["annotations"] = {OWN_PREFIX + "last-handled-configuration":
+                                            json.dumps({"spec": spec0, "metadata": {"labels": {"l": "1"}}}, separators=(",", ":")) + "\n"}
+        sc["objects"] = [{"name": "a", "body": body0}]
+        t = 1.0
+    else:
+        timeline.append([1.0, "create", "a", body0])
+        t = 2.0
+    # 1. the victim's field changes (sometimes another one with it): the victim is selected and fails
+    first: dict[str, Any] = {"x": 1}
+    if rng.random() < 0.25:
+        first[rng.choice(fields[1:])] = 1
+    t += rng.choice([0.5, 1.0])
+    timeline.append([t, "edit", "a", {"spec": dict(first)}])
+    t1 = t
+    # 2. before its retry: the victim's field is reverted (its label flipped), other fields change
+    t += rng.choice([0.25, 0.5, 1.0, 2.0, 3.0])
+    others = [f for f in fields[1:] if rng.random() < 0.7] or [fields[1]]
+    second: dict[str, Any] = {"spec": {"x": 0, **{f: 2 for f in others}}}
+    if victim_how == "label":
+        second = {"spec": {f: 2 for f in others}, "metadata": {"labels": {"l": "0"}}}
+        if rng.random() < 0.5:
+            second["spec"]["x"] = 0
+    timeline.append([t, "edit", "a", second])
+    t2 = t
+    # 3. afterwards
+    for _ in range(rng.choice([0, 1, 1, 2])):
+        t += rng.choice([0.5, 2.0, 4.0, 9.0])
+        what = rng.choice(["other", "other", "victim", "both", "label"])
+        v = 3 + len(timeline)
+        if what == "other":
+            timeline.append([t, "edit", "a", {"spec": {rng.choice(fields[1:]): v}}])
+        elif what == "victim":
+            timeline.append([t, "edit", "a", {"spec": {"x": v}, **({"metadata": {"labels": {"l": "1"}}} if victim_how == "label" else {})}])
+        elif what == "both":
+            timeline.append([t, "edit", "a", {"spec": {"x": v, rng.choice(fields[1:]): v}}])
+        else:
+            timeline.append([t, "edit", "a", {"metadata": {"labels": {"l": rng.choice(["0", "1"])}}}])
+    if any(h["kind"] == "delete" for h in handlers) and rng.random() < 0.6:
+        t += rng.choice([0.5, 3.0])
+        timeline.append([t, "delete", "a"])
+    # restarts: before / around / after the de-selecting change
+    r = rng.random()
+    if r < 0.3:
+        ts = t1 + rng.choice([0.125, 0.25]) if t2 - t1 > 0.25 else t1 + 0.125
+        timeline.append([ts, rng.choice(["stop", "kill"])])
+        timeline.append([t2 + rng.choice([0.5, 2.0, 5.0]), "start"])       # the change arrives while the operator is down
+    elif r < 0.45:
+        ts = t2 + rng.choice([0.015625, 0.03125, 0.5, 1.5])
+        timeline.append([ts, rng.choice(["stop", "kill"])])
+        timeline.append([ts + rng.choice([0.5, 2.0]), "start"])
+    elif r < 0.55:
+        ts = rng.randrange(64, int((t + 4.0) * 64)) / 64.0
+        timeline.append([ts, rng.choice(["stop", "kill"])])
+        timeline.append([ts + rng.choice([0.5, 2.0, 5.0]), "start"])
+    sc["timeline"] = timeline
+    sc["end"] = t + 40.0
+    sc["family"] = "deselect"
+    if rng.random() < 0.15:
+        sc["status_subresource"] = True
+    return sc
+
+
 SUB_MODES = ["execute", "decorator", "register", "decorator_execute"]
 ESSENCE0 = {"spec": {"x": 0}, "metadata": {"labels": {"l": "1"}}}
 
@@ -480,6 +608,27 @@ def oracle(ctx: Ctx, sc: dict, tr: dict) -> None:
         if all_fin and left:
             ctx.oracle_fail(f"all selected handlers finished but progress records remain: {left}",
                             {"scenario": sc, "cycle": cyc["i"]}, {"site": "process_changing_cause", "shape": "closed without purge"})
+        # "… closed EXACTLY WHEN every selected handler has finished": the direction "closes when all the SELECTED ones
+        # have finished" — judged from what the pass did, not from the implementation's own `done` flag (`p["closed"]`):
+        # whatever other records the object carries (e.g. the unfinished record, same purpose, of a handler that is no
+        # longer selected) the pass that finishes the last selected handler writes the last-handled state when it
+        # differs, and — on a deletion held by the framework's finalizer — releases the object
+        unsel_open = sorted(h for h in p["owned"] if h not in p["selected"] and p["P"].get(h) and not _finished(p["P"][h])
+                            and p["P"][h].get("purpose") in (None, p["reason"]))
+        if unsel_open:
+            ctx.count("unselected_unfinished_same_purpose", f"{p['reason']}: all selected finished={all_fin} closed={bool(p.get('closed'))}")
+        if all_fin and "diffbase_in_patch" in p and cz.get("new") is not None and (cz.get("old_absent") or cz.get("diff")) \
+                and not p["diffbase_in_patch"]:
+            ctx.oracle_fail(f"all selected handlers {p['selected']} have finished but the last-handled state was not written although it "
+                            f"differs (records of handlers that are not selected: {unsel_open})",
+                            {"scenario": sc, "cycle": cyc["i"], "finished": fin_after, "unselected_unfinished": unsel_open},
+                            {"site": "process_changing_cause", "shape": "all selected finished but the cycle is not closed"})
+        meta = body.get("metadata") or {}
+        if all_fin and p["reason"] == "delete" and meta.get("deletionTimestamp") and OWN_FINALIZER in (meta.get("finalizers") or []) \
+                and cyc.get("apply") and not cyc.get("error") and "allow_deletion" not in (cyc["apply"].get("fns") or []):
+            ctx.oracle_fail(f"all selected deletion handlers {p['selected']} have finished but the object was not released in that pass",
+                            {"scenario": sc, "cycle": cyc["i"], "finished": fin_after, "unselected_unfinished": unsel_open},
+                            {"site": "process_resource_causes", "shape": "all selected finished but the deletion is not released"})
         if not all_fin:
             if p.get("diffbase_in_patch"):
                 ctx.oracle_fail("last-handled state written although a selected handler has not finished",
@@ -764,6 +913,7 @@ def run(ctx: Ctx) -> None:
     scenarios += [gen_foreign_burst(ctx.rng, 60_000_000 + ctx.seed * 100000 + i) for i in range(max(10, n // 4))]
     scenarios += [gen_restart_supersede(ctx.rng, 65_000_000 + ctx.seed * 100000 + i) for i in range(max(10, n // 6))]
     scenarios += [gen_subs(ctx.rng, 70_000_000 + ctx.seed * 100000 + i) for i in range(max(60, n // 2))]
+    scenarios += [gen_deselect(ctx.rng, 80_000_000 + ctx.seed * 100000 + i) for i in range(max(40, n // 4))]
     for name, sc in _corpus():
         scenarios.insert(0, sc)
     results = pool.run_many(scenarios, wall=40.0)
@@ -868,6 +1018,7 @@ def search(ctx: Ctx, broken: list) -> None:
     """A proof/tie is broken: look for a concrete failing history with the oracle at 10x budget."""
     n = ctx.budget(1200, 8000)
     scenarios = [gen_scenario(ctx.rng, 7_000_000 + ctx.seed * 100000 + i) for i in range(n)]
+    scenarios += [gen_deselect(ctx.rng, 87_000_000 + ctx.seed * 100000 + i) for i in range(n // 4)]
     # bias: replay the scenarios of the diverging passes first
     for b in broken[:10]:
         sc = (b.replay or {}).get("input", {}).get("scenario") if isinstance(b.replay, dict) else None
